@@ -100,12 +100,16 @@ def repo_sources(patterns=('*.hpp', '*.cpp')):
     return sorted(out)
 
 
-def _prune_cache(keep=24):
+def _prune_cache(keep=60, min_age_s=4 * 3600):
+    """bounded cache: drop the least recently used entries beyond `keep`, but never one used in the last hours
+    (another check may be running from it)"""
     try:
         ents = [os.path.join(CACHE, d) for d in os.listdir(CACHE)]
         ents.sort(key=lambda p: os.path.getmtime(p), reverse=True)
+        now = time.time()
         for p in ents[keep:]:
-            shutil.rmtree(p, ignore_errors=True)
+            if now - os.path.getmtime(p) > min_age_s:
+                shutil.rmtree(p, ignore_errors=True)
     except OSError:
         pass
 
